@@ -184,6 +184,9 @@ SERVICE_EDGES = [
     ("a service name with two capitals", "service MotorControl @ 1 {\n    method m(A) @ 0 returns B,\n}"),
     ("a service name in snake case", "service motor_control @ 1 {\n    method m(A) @ 0 returns B,\n}"),
     ("payload names with two capitals and underscores", "struct WheelSpeed {\n    v @ 0: u8,\n}\nstruct wheel_cmd {\n    v @ 0: u8,\n}\nservice S @ 1 {\n    method m(WheelSpeed) @ 0 returns wheel_cmd,\n}"),
+    ("an integer field of 0 bits", "struct Z {\n    z @ 0: u0,\n    t @ 1: u8,\n}"),
+    ("an integer field of 65 bits", "struct Z {\n    z @ 0: u65,\n    t @ 1: u8,\n}"),
+    ("an array of 99-bit integers inside an Optional", "struct Z {\n    z @ 0: Optional[[i99, 2]],\n    t @ 1: u8,\n}"),
     ("two services with one id", "service S @ 1 {\n    method m(A) @ 0 returns B,\n}\nservice T @ 1 {\n    method k(B) @ 3 returns A,\n}"),
 ]
 
